@@ -314,15 +314,6 @@ Proof.
   destruct (f_reqcert c); inversion H; subst s' out; unfold server_expect_finished; fields; simpl; auto.
 Qed.
 
-Lemma take_slice_all : forall (m : bytes) off k, 0 <= off -> off + k = Zlen m -> ztake off m ++ slice m off k = m.
-Proof.
-  intros m off k H0 H1. unfold slice, ztake, zdrop.
-  rewrite (firstn_all2 (skipn (Z.to_nat off) m)).
-  - apply firstn_skipn.
-  - rewrite skipn_length. unfold Zlen in H1. lia.
-Qed.
-
-
 Lemma server_hello_s5 : forall c s m s' out,
   t_resumed s = false ->
   server_handle_hello O c s m = (OOk, s', out) ->
@@ -344,16 +335,10 @@ Proof.
   apply with_parse_inv in H. destruct H as [(kx & _ & H) | [_ X]]; [| congruence].
   destruct kx as [[[g pubk] shared] |]; [| discriminate].
   do 11 eexists. split; [exact H |].
-  repeat match type of Hpsk with
-  | context [match ?x with _ => _ end] => destruct x eqn:?
-  end; try discriminate; inversion Hpsk; subst pskst; clear Hpsk;
-  repeat match goal with |- context [dsize ?x] => let b := fresh "bl" in set (b := dsize x) in * end;
-  cbv beta iota zeta delta [the_ks log_key set_ks t_ks t_resumed k_tr k_suite ks_update ks_extract ks_new];
-  try (split; [reflexivity | split; [reflexivity | exact Hr0]]).
-  all: split; [| split; reflexivity].
-  all: rewrite ?app_nil_l, <- ?app_assoc.
-  all: match goal with E : (?off <? 0) = false |- _ => apply Z.ltb_ge in E; apply take_slice_all; [exact E |] end.
-  all: match goal with b := dsize _ |- ?o + ?k = _ => change k with (3 + b); subst b; lia end.
+  destruct pskst as [x |].
+  - apply server_select_psk_spec in Hpsk. destruct Hpsk as (A & B & C & D). exact (conj B (conj C D)).
+  - cbv beta iota zeta delta [the_ks set_ks t_ks t_resumed k_tr k_suite ks_update ks_extract ks_new].
+    split; [reflexivity | split; [reflexivity | exact Hr0]].
 Qed.
 
 End P5.
